@@ -201,3 +201,36 @@ impl PortReq {
         self
     }
 }
+
+/// Verification hooks (add-only, compiled only with `--cfg remoc_verif`).
+#[cfg(remoc_verif)]
+#[allow(missing_docs, dead_code, clippy::all)]
+pub mod verif_hooks {
+    use super::*;
+
+    pub fn allocator_new(limit: u32) -> PortAllocator {
+        PortAllocator::new(limit)
+    }
+
+    /// Marks `number` as used and returns its RAII port number.
+    pub fn allocator_reserve(a: &PortAllocator, number: u32) -> PortNumber {
+        a.0.lock().unwrap().used.insert(number);
+        PortNumber { number, allocator: a.0.clone() }
+    }
+
+    /// (used ports, limit, registered waiters)
+    pub fn allocator_state(a: &PortAllocator) -> (usize, u32, usize) {
+        let inner = a.0.lock().unwrap();
+        (inner.used.len(), inner.limit, inner.notify_tx.len())
+    }
+
+    pub fn allocator_contains(a: &PortAllocator, number: u32) -> bool {
+        a.0.lock().unwrap().used.contains(&number)
+    }
+
+    pub fn allocator_add_waiter(a: &PortAllocator) -> oneshot::Receiver<()> {
+        let (tx, rx) = oneshot::channel();
+        a.0.lock().unwrap().notify_tx.push(tx);
+        rx
+    }
+}
